@@ -37,21 +37,27 @@ Definition edge_list (es : list edge) : list (name * name) := map (fun e => (e_s
 Definition is_inh (e : edge) : bool := match e_kind e with EInh => true | EAssoc => false end.
 Definition is_assoc (e : edge) : bool := negb (is_inh e).
 
-(* parent_map: child -> parents, read through get_edge_data for every entry of edge_list *)
+(* parent_map: child -> parents.  Since d1fa493 it reads weighted_edge_list(): every edge with its own data.
+   [parents_old] is the code before: get_edge_data(u, v) for every entry of edge_list(), i.e. one of several parallel
+   edges, kept for the regression theorem. *)
 Definition parents (es : list edge) (c : name) : list name :=
+  flat_map (fun e => if is_inh e && Pos.eqb (e_dst e) c then [e_src e] else []) es.
+Definition parents_old (es : list edge) (c : name) : list name :=
   flat_map (fun uv => match get_edge_data es (fst uv) (snd uv) with
                       | Some r => if is_inh r && Pos.eqb (snd uv) c then [fst uv] else []
                       | None => [] end) (edge_list es).
 (* all_ancestors: closure of parents; fuel = number of nodes *)
-Fixpoint closure (fuel : nat) (es : list edge) (frontier seen : list name) : list name :=
+Fixpoint closure (par : list edge -> name -> list name) (fuel : nat) (es : list edge) (frontier seen : list name) : list name :=
   match fuel with
   | O => seen
   | S k =>
-      let new := dedup (flat_map (parents es) frontier) seen in
-      match new with [] => seen | _ => closure k es new (seen ++ new) end
+      let new := dedup (flat_map (par es) frontier) seen in
+      match new with [] => seen | _ => closure par k es new (seen ++ new) end
   end.
 Definition all_ancestors (g : graph) (c : name) : list name :=
-  let ps := dedup (parents (g_edges g) c) [] in closure (length (g_nodes g)) (g_edges g) ps ps.
+  let ps := dedup (parents (g_edges g) c) [] in closure parents (length (g_nodes g)) (g_edges g) ps ps.
+Definition all_ancestors_old (g : graph) (c : name) : list name :=
+  let ps := dedup (parents_old (g_edges g) c) [] in closure parents_old (length (g_nodes g)) (g_edges g) ps ps.
 
 (* Association.get_key: (Association, target class[, field name]) *)
 Definition key := (name * name)%type.
@@ -82,13 +88,14 @@ Inductive query :=
 | QOutEdges (c : name)                      (* get_out_edges / get_outgoing_relations / get_associations_with_condition *)
 | QOutNeighbours (c : name) (k : ekind)     (* get_outgoing_neighbors_with_relation_type *)
 | QInNeighbours (c : name) (k : ekind)      (* get_incoming_neighbors_with_relation_type *)
+| QAncestors (c : name)                     (* all_ancestors (over parent_map) *)
 | QOther.                                   (* parent_map, all_ancestors, assoc keys, role takers, rendering: called, answer not compared *)
 
 Definition ekind_eqb (a b : ekind) : bool := match a, b with EInh, EInh | EAssoc, EAssoc => true | _, _ => false end.
 Definition query_eqb (a b : query) : bool :=
   match a, b with
   | QNodes, QNodes | QAssociations, QAssociations | QInheritance, QInheritance | QOther, QOther => true
-  | QOutEdges c, QOutEdges d => Pos.eqb c d
+  | QOutEdges c, QOutEdges d | QAncestors c, QAncestors d => Pos.eqb c d
   | QOutNeighbours c k, QOutNeighbours d l | QInNeighbours c k, QInNeighbours d l => Pos.eqb c d && ekind_eqb k l
   | _, _ => false
   end.
@@ -98,6 +105,7 @@ Proof.
   - intro H. apply Pos.eqb_eq in H. now subst.
   - intro H. apply andb_true_iff in H as [H1 H2]. apply Pos.eqb_eq in H1. subst. destruct k, k0; try discriminate; auto.
   - intro H. apply andb_true_iff in H as [H1 H2]. apply Pos.eqb_eq in H1. subst. destruct k, k0; try discriminate; auto.
+  - intro H. apply Pos.eqb_eq in H. now subst.
 Qed.
 
 Definition edges_sx (es : list edge) : sx := SL (sx_sort (map edge_sx es)).
@@ -115,8 +123,21 @@ Definition answer (g : graph) (q : query) : sx :=
       SL (sx_set (map (fun e => ZP (e_dst e)) (filter (fun e => Pos.eqb (e_src e) c && kind_is k e) (g_edges g))))
   | QInNeighbours c k =>
       SL (sx_set (map (fun e => ZP (e_src e)) (filter (fun e => Pos.eqb (e_dst e) c && kind_is k e) (g_edges g))))
+  | QAncestors c => SL (sx_set (map ZP (all_ancestors g c)))   (* what the code computes from the graph, quirk included *)
   | QOther => SL []
   end.
+(* what "the ancestors of c" means: everything reachable backwards over inheritance edges *)
+Definition inh_parents (es : list edge) (c : name) : list name :=
+  map e_src (filter (fun e => is_inh e && Pos.eqb (e_dst e) c) es).
+Fixpoint inh_closure (fuel : nat) (es : list edge) (frontier seen : list name) : list name :=
+  match fuel with
+  | O => seen
+  | S k => let new := dedup (flat_map (inh_parents es) frontier) seen in
+           match new with [] => seen | _ => inh_closure k es new (seen ++ new) end
+  end.
+Definition true_ancestors (g : graph) (c : name) : list name :=
+  let ps := dedup (inh_parents (g_edges g) c) [] in inh_closure (length (g_nodes g)) (g_edges g) ps ps.
+Definition spec_ancestors_sx (g : graph) (c : name) : sx := SL (sx_set (map ZP (true_ancestors g c))).
 (* the methods decorated with @lru_cache *)
 Definition cached (q : query) : bool :=
   match q with QOutEdges _ | QOutNeighbours _ _ | QInNeighbours _ _ => true | _ => false end.
@@ -423,3 +444,32 @@ Lemma sharedmemo_refuted :
   let s := fold_left run_op_sharedmemo [OpSub 0 false; OpQuery 1 (QOutEdges 3%positive)] (init witness_graph) in
   graph_at s 0 = Some witness_graph /\ snd (step true s (OpQuery 0 (QOutEdges 3%positive))) <> answer witness_graph (QOutEdges 3%positive).
 Proof. vm_compute. split; [reflexivity | discriminate]. Qed.
+
+(* regression (C17-h, repaired by d1fa493): an inheritance edge and an association edge between the same ordered pair
+   (Parent.favourite : Optional["Child"], Child(Parent)).  parent_map as it was read get_edge_data(u, v) for every entry of
+   edge_list(), which is the most recently added of the parallel edges - the association - so the inheritance edge was never
+   seen; now the ancestors query answers what the inheritance edges say *)
+Definition parallel_graph : graph :=
+  mk_graph [1; 2]%positive [mk_edge EInh 1 2 1; mk_edge EAssoc 1 2 5; mk_edge EAssoc 2 2 5]%positive.
+Lemma parallel_ancestors_regression :
+  all_ancestors_old parallel_graph 2%positive = [] /\ true_ancestors parallel_graph 2%positive = [1%positive]
+  /\ answer parallel_graph (QAncestors 2%positive) = spec_ancestors_sx parallel_graph 2%positive.
+Proof. repeat split; vm_compute; reflexivity. Qed.
+
+(* since d1fa493 the ancestors query answers exactly what the inheritance edges say, for every graph *)
+Lemma parents_inh es c : parents es c = inh_parents es c.
+Proof.
+  unfold parents, inh_parents. induction es as [|e es IH]; simpl; auto.
+  destruct (is_inh e && Pos.eqb (e_dst e) c); simpl; now rewrite IH.
+Qed.
+Lemma closure_inh fuel es : forall frontier seen, closure parents fuel es frontier seen = inh_closure fuel es frontier seen.
+Proof.
+  induction fuel as [|k IH]; simpl; intros frontier seen; auto.
+  rewrite (flat_map_ext (parents es) (inh_parents es) (parents_inh es)).
+  destruct (dedup (flat_map (inh_parents es) frontier) seen); auto.
+Qed.
+Theorem ancestors_correct g c : answer g (QAncestors c) = spec_ancestors_sx g c.
+Proof.
+  unfold spec_ancestors_sx, true_ancestors. cbn [answer]. unfold all_ancestors.
+  now rewrite parents_inh, closure_inh.
+Qed.
